@@ -64,7 +64,7 @@ func forwardsUnchanged(fn *ssa.Function, target ssa.Value) bool {
 		}
 		ok = true
 		for i, a := range cl.Call.Args {
-			if strip(a) != ssa.Value(fn.Params[i]) {
+			if strip(a) != strip(fn.Params[i]) {
 				ok = false
 			}
 		}
@@ -92,7 +92,7 @@ func ruleConstructorWiring(c *Ctx, t *thrModel, ruleRBC, ruleSync string) {
 		if ctor == nil {
 			continue
 		}
-		id := ssa.Value(ctor.Params[0])
+		id := strip(ctor.Params[0])
 		nR, nS := 0, 0
 		for _, clo := range WithAnon(ctor) {
 			for _, in := range instrsOf(clo) {
@@ -108,7 +108,7 @@ func ruleConstructorWiring(c *Ctx, t *thrModel, ruleRBC, ruleSync string) {
 					sv, _ := structLitFieldValue(a, fSelf)
 					av, _ := structLitFieldValue(a, fAck)
 					fv, _ := structLitFieldValue(a, fFwd)
-					okN := nv != nil && len(clo.Params) == 3 && strip(nv) == ssa.Value(clo.Params[2])
+					okN := nv != nil && len(clo.Params) == 3 && strip(nv) == strip(clo.Params[2])
 					okS := sv != nil && t.sl.rootOf(sv) == id
 					okA, okF := false, false
 					if mc, isMC := strip(av).(*ssa.MakeClosure); av != nil && isMC && len(clo.Params) == 3 {
@@ -126,8 +126,8 @@ func ruleConstructorWiring(c *Ctx, t *thrModel, ruleRBC, ruleSync string) {
 					iv, _ := structLitFieldValue(a, fMID)
 					bv, _ := structLitFieldValue(a, fMB)
 					sv, _ := structLitFieldValue(a, fMS)
-					ok := len(clo.Params) == 3 && mv != nil && strip(mv) == ssa.Value(clo.Params[0]) && iv != nil && t.sl.rootOf(iv) == id &&
-						bv != nil && strip(bv) == ssa.Value(clo.Params[1]) && sv != nil && strip(sv) == ssa.Value(clo.Params[2])
+					ok := len(clo.Params) == 3 && mv != nil && strip(mv) == strip(clo.Params[0]) && iv != nil && t.sl.rootOf(iv) == id &&
+						bv != nil && strip(bv) == strip(clo.Params[1]) && sv != nil && strip(sv) == strip(clo.Params[2])
 					c.Check(ok, ruleSync, FuncName(clo), "disc.Member built from the factory's arguments", m.Pos(a.Pos()),
 						"Membership ← members, ID ← id, Broadcast/Send ← the factory's callbacks",
 						"the synchroniser is not built over the member list / callbacks it was given")
